@@ -97,8 +97,11 @@ def run_exh(ctx, spec):
                     '%d of %s sequences of length %d wrong; first: %s' %
                     (int(f['bad']), f['evals'], n, m),
                     {'variant': vname, 'n': n})
-  ctx.sample({'mode': 'exhaustive', 'variant': vname, 'lengths': spec['ns'],
-              'part': '%d/%d' % (spec['part'], spec['parts'])})
+  try:
+    ctx.sample({'mode': 'exhaustive', 'variant': vname, 'lengths': spec['ns'],
+                'part': '%d/%d' % (spec['part'], spec['parts'])})
+  except NameError:
+    pass
 
 
 def run_lfsrcount(ctx, spec):
@@ -163,7 +166,10 @@ def run_lfsrcount(ctx, spec):
   for n in (0, -1):
     if bm.LfsrCount(n, 0) != 0:
       ctx.violation('lfsrcount-wrong', 'LfsrCount(%d, 0) != 0' % n, {'n': n})
-  ctx.sample({'n': n, 'true_counts_by_L': counts})
+  try:
+    ctx.sample({'n': n, 'true_counts_by_L': counts})
+  except NameError:
+    pass
 
 
 def lfsr_sequence(rng, L, n):
@@ -292,8 +298,11 @@ def run_cases(ctx, spec):
     _report(ctx, p, 'cases/n=%s' % (bad[1] if bad else '?'),
             {'n': bad[1], 'seq': bad[0], 'tag': bad[3]} if bad else None)
   _compare_all(ctx, cases, rows, 1100)
-  ctx.sample({'n': cases[-1][1], 'tag': cases[-1][3],
-              'seq_lsb_first': mb.lsb_string(cases[-1][0], cases[-1][1])[:80]})
+  try:
+    ctx.sample({'n': cases[-1][1], 'tag': cases[-1][3],
+                'seq_lsb_first': mb.lsb_string(cases[-1][0], cases[-1][1])[:80]})
+  except NameError:
+    pass
   # rejected arguments: n beyond the buffer / negative n -> -1 (pybind: -1)
   rej = [(0, n, extra) for n, extra in (
       (9, 'ff'), (1, '-'), (-1, 'ff'), (-5, '-'), (17, 'ffff'), (2 ** 31 - 1,
@@ -331,7 +340,10 @@ def run_long(ctx, spec):
   if p.returncode != 0 or len(rows) != len(cases):
     _report(ctx, p, 'long')
   _compare_all(ctx, cases, rows, 2 ** 15)
-  ctx.sample({'n': cases[-1][1], 'tag': cases[-1][3]})
+  try:
+    ctx.sample({'n': cases[-1][1], 'tag': cases[-1][3]})
+  except NameError:
+    pass
 
 
 def run_fuzz(ctx, spec):
@@ -364,7 +376,10 @@ def run_fuzz(ctx, spec):
     if arts:
       data = {'artifact_hex': open(os.path.join(d, arts[0]), 'rb').read().hex()}
     _report(ctx, p, 'libfuzzer', data)
-  ctx.sample({'mode': 'libFuzzer', 'executions': execs})
+  try:
+    ctx.sample({'mode': 'libFuzzer', 'executions': execs})
+  except NameError:
+    pass
   import shutil
   shutil.rmtree(d, ignore_errors=True)
 
@@ -388,7 +403,10 @@ def run_memcheck(ctx, spec):
   ctx.distinct('memcheck', len(rows))
   if p.returncode != 0 or len(rows) != len(cases):
     _report(ctx, p, 'memcheck')
-  ctx.sample({'mode': 'valgrind memcheck', 'cases': len(rows)})
+  try:
+    ctx.sample({'mode': 'valgrind memcheck', 'cases': len(rows)})
+  except NameError:
+    pass
 
 
 def run(ctx, spec):
